@@ -217,7 +217,15 @@ fn c11_batches(tier: &str) -> Vec<Batch> {
     wake.drop_handles_permille = 0;
     wake.drop_stream_permille = 0;
     wake.max_checks = 2;
+    // a machine that gives up at start (an app with an empty id or version 0 in the app set): requests
+    // queued before its first poll and requests made afterwards must fail with "gone", not hang
+    let mut invalid = c11_profile();
+    invalid.name = "c11-invalid".into();
+    invalid.invalid_app_permille = 350;
+    invalid.request_at_start_permille = 500;
+    invalid.max_checks = 2;
     vec![
+        Batch { name: "c11-invalid".into(), profile: invalid, runs: scale(tier, 3_000, 60_000), exec: exec_c11, strata: None },
         Batch { name: "c11-main".into(), profile: c11_profile(), runs: scale(tier, 15_000, 300_000), exec: exec_c11, strata: None },
         Batch { name: "c11-busy".into(), profile: busy, runs: scale(tier, 4_000, 80_000), exec: exec_c11, strata: None },
         Batch { name: "c11-wake".into(), profile: wake, runs: scale(tier, 5_000, 100_000), exec: exec_c11, strata: None },
